@@ -16,7 +16,7 @@ import (
 // is concrete the real function is called (the engine runs on the same Go toolchain as /repo's
 // build); with a symbolic argument the call is "unsupported" unless a symbolic intrinsic exists.
 var concreteFuncs = map[string]interface{}{
-	"strings.IndexByte": strings.IndexByte, "strings.IndexRune": strings.IndexRune, "strings.IndexAny": strings.IndexAny,
+	"strings.IndexRune": strings.IndexRune, "strings.IndexAny": strings.IndexAny,
 	"strings.LastIndexByte": strings.LastIndexByte, "strings.Split": strings.Split, "strings.SplitN": strings.SplitN,
 	"strings.Join": strings.Join, "strings.Fields": strings.Fields, "strings.TrimPrefix": strings.TrimPrefix,
 	"strings.TrimSuffix": strings.TrimSuffix, "strings.TrimLeft": strings.TrimLeft, "strings.TrimRight": strings.TrimRight,
@@ -24,17 +24,17 @@ var concreteFuncs = map[string]interface{}{
 	"strings.EqualFold": strings.EqualFold, "strings.Count": strings.Count, "strings.ContainsRune": strings.ContainsRune,
 	"strings.ContainsAny": strings.ContainsAny, "strings.Title": strings.Title, "strings.ReplaceAll": strings.ReplaceAll,
 	"strings.Compare": strings.Compare, "strings.Cut": strings.Cut,
-	"internal/stringslite.IndexByte": strings.IndexByte, "internal/stringslite.Index": strings.Index,
+	"internal/stringslite.Index": strings.Index,
 	"internal/stringslite.HasPrefix": strings.HasPrefix, "internal/stringslite.HasSuffix": strings.HasSuffix,
 	"internal/stringslite.Cut": strings.Cut, "internal/stringslite.CutPrefix": strings.CutPrefix, "internal/stringslite.CutSuffix": strings.CutSuffix,
 	"internal/stringslite.TrimPrefix": strings.TrimPrefix, "internal/stringslite.TrimSuffix": strings.TrimSuffix,
-	"internal/bytealg.IndexByteString": strings.IndexByte, "internal/bytealg.CountString": func(s string, c byte) int { return strings.Count(s, string(c)) },
+	"internal/bytealg.CountString": func(s string, c byte) int { return strings.Count(s, string(c)) },
 	"strconv.Atoi":      strconv.Atoi,
 	"strconv.FormatInt": strconv.FormatInt, "strconv.ParseInt": strconv.ParseInt, "strconv.ParseBool": strconv.ParseBool,
 	"strconv.QuoteToASCII": strconv.QuoteToASCII, "strconv.QuoteRune": strconv.QuoteRune,
 	"unicode.IsLetter": unicode.IsLetter, "unicode.IsDigit": unicode.IsDigit, "unicode.IsUpper": unicode.IsUpper,
 	"unicode.IsLower": unicode.IsLower, "unicode.IsSpace": unicode.IsSpace, "unicode.ToLower": unicode.ToLower, "unicode.ToUpper": unicode.ToUpper,
-	"unicode/utf8.RuneCountInString": utf8.RuneCountInString, "unicode/utf8.ValidString": utf8.ValidString,
+	"unicode/utf8.ValidString": utf8.ValidString,
 	"unicode/utf8.DecodeRuneInString": utf8.DecodeRuneInString, "unicode/utf8.DecodeLastRuneInString": utf8.DecodeLastRuneInString,
 	"unicode/utf8.RuneLen": utf8.RuneLen,
 	"path.Base": path.Base, "path.Dir": path.Dir, "path.Join": path.Join, "path.Clean": path.Clean, "path.Ext": path.Ext,
